@@ -331,7 +331,7 @@ def _run_impl(case):
             out['envsnaps'].append(snap)
         return out
     finally:
-        logging.disable(logging.NOTSET)
+        pass  # logging stays disabled: destructors of abandoned futures would log at interpreter exit
         if d:
             shutil.rmtree(d, ignore_errors=True)
 
